@@ -54,6 +54,7 @@ type vCall struct {
 	Via      string     ` + "`json:\"via,omitempty\"`" + `
 	Pkg      bool       ` + "`json:\"pkg,omitempty\"`" + `
 	Matchers []vMatcher ` + "`json:\"matchers,omitempty\"`" + `
+	Tag      string     ` + "`json:\"tag,omitempty\"`" + `
 }
 
 type vNode struct {
@@ -441,6 +442,16 @@ func call_{{SFX}}(t testing.TB, c vCall, idx int) {
 		deferred(func() {})
 	case "direct-othertest":
 		OtherTestDirect(c.API, vconfig(c), rec, c.Val, vinput(c))
+	case "subpkg-body":
+		// the call is made by a subtest whose body is defined in a non-test file of the
+		// sub-package (signals of the subtest are logged under this call)
+		if tt, ok := t.(*testing.T); ok {
+			tt.Run("body"+c.Tag, util.Body(c.API, vconfig(c), func(st *testing.T) util.T { return &recT{t: st, of: rec.of} }, c.Val, vinput(c)))
+		}
+	case "nontest-via-othertest":
+		// the same non-test call statements as direct-nontest, reached through a function of
+		// another test file of the package: that file is the nearest test file on the stack
+		OtherTestNonTest(c.API, vconfig(c), rec, c.Val, vinput(c))
 	case "direct-nontest":
 		direct()
 	case "direct-nontest-helper":
@@ -629,10 +640,65 @@ func OtherTestDirect(api string, c *snaps.Config, t HelperT, val string, in any)
 		c.MatchStandaloneJSON(t, in)
 	}
 }
+
+//go:noinline
+func OtherTestNonTest(api string, c *snaps.Config, t HelperT, val string, in any) {
+	switch api {
+	case "snap":
+		DirectSnapshot(c, t, val)
+	case "json":
+		DirectJSON(c, t, in)
+	case "yaml":
+		DirectYAML(c, t, in)
+	case "ssnap":
+		DirectStandalone(c, t, val)
+	default:
+		DirectStandaloneJSON(c, t, in)
+	}
+}
 `
 
 const tmplUtil = `package util
 
+import (
+	"testing"
+
+	"github.com/gkampitakis/go-snaps/snaps"
+)
+
 // Call lives in a sub-package (non-test file).
 func Call(f func()) { f() }
+
+// T is what the Match* entry points need.
+type T interface {
+	Helper()
+	Skip(...any)
+	Skipf(string, ...any)
+	SkipNow()
+	Name() string
+	Error(...any)
+	Log(...any)
+	Cleanup(func())
+}
+
+// Body returns a subtest body defined in this non-test file of another directory (the usual
+// shape of a shared golden/table helper: t.Run("x", util.Body(...))): when it runs, no test
+// file is on the stack between the Match* call and the test runner.
+func Body(api string, c *snaps.Config, wrap func(*testing.T) T, val string, in any) func(*testing.T) {
+	return func(tt *testing.T) {
+		t := wrap(tt)
+		switch api {
+		case "snap":
+			c.MatchSnapshot(t, val)
+		case "json":
+			c.MatchJSON(t, in)
+		case "yaml":
+			c.MatchYAML(t, in)
+		case "ssnap":
+			c.MatchStandaloneSnapshot(t, val)
+		default:
+			c.MatchStandaloneJSON(t, in)
+		}
+	}
+}
 `
